@@ -142,7 +142,7 @@ def case_strategy(draw, max_depth):
             if o[0] == "DEFAULT":
                 o[1], o[2] = "'dv'", "'dv'"
     return {"type": ty, "opts": opts, "pos": draw(st.sampled_from(["first", "mid", "last", "only"])),
-            "after": draw(st.sampled_from(AFTER)), "layout": draw(gen.layout(max_len=40))}
+            "after": draw(st.sampled_from(AFTER)), "layout": draw(gen.layout(max_len=40)), "norm": draw(st.integers(0, 2)) == 0}
 
 
 def norm_type(s):
@@ -227,8 +227,11 @@ class C09(Prop):
         else:
             out.label("spaced=%s" % ty["spaced"])
         out.nontrivial = (depth >= 1 or (ty["top"] == "leaf" and (ty["size"] or ty["suffix"] or len(ty["words"]) > 1))) and bool(case["opts"]) and case["pos"] != "only"
-        r = loader.try_parse(ddl, output_mode="hql")
-        q = loader.try_parse(plain, output_mode="hql")
+        # no delimited identifier is written: normalize_names must not change anything (brackets of [] suffixes are not delimiters)
+        norm = bool(case.get("norm"))
+        out.label("normalize_names=%s" % norm)
+        r = loader.try_parse(ddl, output_mode="hql", normalize_names=norm)
+        q = loader.try_parse(plain, output_mode="hql", normalize_names=norm)
         out.parses += 2
         if q[0] != "ok" or not q[1] or "columns" not in q[1][0]:
             out.fail("plain-variant-failed", "harmless variant with plain int did not parse: %r -> %r" % (plain, q))
